@@ -136,7 +136,9 @@ var nastyNames = []string{"a\"b", "a\\b", "a\nb", "tab\tname", "é", "名前", "
 var extraKeywords = []string{"unknownKeyword", "custom", "$comment", "contentMediaType", "const", "if", "then", "meta-data", "vendor", "zzz"}
 var extNames = []string{"x-a", "x-vendor", "x-go-name", "x-nullable", "x-UPPER", "x-", "x-with space", "x-ünï", "x-a\"q", "x-order2"}
 var refPool = []string{"#/definitions/a", "#/definitions/b", "other.json#/definitions/c", "sub/other.json", "http://example.com/s.json#/definitions/d",
-	"#/parameters/p", "#/responses/r", "#/definitions/a~1b", "#/definitions/a%20b", "../up.json#/x"}
+	"#/parameters/p", "#/responses/r", "#/definitions/a~1b", "#/definitions/a%20b", "../up.json#/x",
+	// characters that net/url leaves alone in a query but that JSON must escape
+	"defs.json?root=C:\\new\\table#/definitions/Pet", "defs.json?label=\",\"readOnly\":true,\"title\":\"x", "defs.json?dir=a\\u0062c#/x"}
 var schemaURLs = []string{"http://json-schema.org/draft-04/schema#", "http://json-schema.org/draft-04/schema", "http://swagger.io/v2/schema.json#"}
 var schemaTypes = []string{"string", "number", "integer", "boolean", "array", "object", "null"}
 var statusCodes = []string{"200", "201", "204", "400", "404", "500", "100", "599"}
